@@ -31,6 +31,26 @@ CHECKS = {
         design="DESIGN.md section 4 (C13)"),
 }
 
+CHECKS["C19"] = dict(
+    category="translation_validation",
+    technique="SMT validation (z3) of the partition produced by the real EquivalencyComputer, per enumerated framework",
+    text="The real reduction is run natively on each enumerated framework; for every class of merged arguments z3 decides over ALL "
+         "argument sets that no complete extension contains one member and not another; totality/inverse of the two mappings and the "
+         "grounded / grounded-defeated classes are checked on the dump. A sat answer is a separating complete extension, re-checked by "
+         "brute force before it is reported.",
+    note="Frameworks are enumerated (all <=3 arguments, 4 arguments sampled in quick / all in thorough, seeded random 5..10, chains, cycles); "
+         "the solver decides the extension dimension. Trusted: z3, the dumper, the set-theoretic definition of complete extensions.",
+    design="DESIGN.md section 4 (C19)")
+CHECKS["C05"] = dict(
+    category="other",
+    technique="Kani/CBMC bounded model checking of Query::read_problem_string over all ASCII strings of <= 6 bytes",
+    text="Only the string layer of the property is within reach of solver-based checking: for every ASCII string of at most 6 bytes "
+         "read_problem_string succeeds exactly on the 21 listed problem strings (case-insensitively) with the right meaning and never "
+         "panics. The process-level clauses (answers on stdout, exit status, clap usage errors) are outside the technique.",
+    note="Claimed narrowly on purpose: clap, the dispatch table of solve_command, stdout and the exit status live in the binary crate and "
+         "the OS and cannot be compiled to CBMC. Trusted: Kani 0.68/CBMC 6.11, the stubs listed in the evidence.",
+    design="DESIGN.md section 4 (C05)")
+
 NOT_APPLICABLE = {
     "C11": "needs frameworks of 20-300 arguments; symbolic execution of the solvers reaches <=3 arguments, where the property is a corollary of C01-C03",
     "C15": "the behaviour specified is that of CaDiCaL (C++ behind FFI) and of an external process; neither can be compiled to the solver's input",
@@ -72,7 +92,7 @@ def main():
         "engines": [
             {"name": "kani", "path": "/verif/kani", "serves_properties": [p for p in CHECKS if "Kani" in CHECKS[p]["technique"]],
              "kind_free_text": "Kani 0.68 proof harnesses (CBMC 6.11 bounded model checking of the MIR of /repo) with a demonic SAT oracle"},
-            {"name": "tv", "path": "/verif/tv", "serves_properties": ["C10", "C13"],
+            {"name": "tv", "path": "/verif/tv", "serves_properties": ["C10", "C13", "C19"],
              "kind_free_text": "native dumpers linked against /repo + z3 (python) deciding the obligations over all assignments / strings"},
         ],
         "checks": checks,
